@@ -5,6 +5,7 @@ CONSTANTS
  Cases <- MCCases
  Window = 2
 INVARIANT CaseOK
+INVARIANT InDomain
 INVARIANT DoneRight
 INVARIANT RestUntouched
 INVARIANT ExistenceRule
